@@ -619,9 +619,31 @@ TReopen ==
      /\ CheckMatch(Ok(e) => S2 = [st EXCEPT !.w[w].active = "a0"], e, "Reopen")
   /\ Step(hv)
 
+\* ---- owner::build_output / owner::create_mwixnet_req -------------------------
+\* a key handed out for an output built for the caller is as fresh as any other (C15: "built outputs");
+\* the history variable `issued` remembers it although no record is stored
+BuiltKey(e) == IF Has(e, "bkey") /\ e.bkey # "" /\ e.res = "ok" THEN {e.bkey} ELSE {}
+HvBuilt(e) == [hv EXCEPT !.issued[e.w] = @ \cup BuiltKey(e)]
+TBuildOutput ==
+  /\ IsEv("build_output")
+  /\ LET e == E  w == e.w
+         r == BuildOutput(st, w) IN
+     /\ Ok(e) => Check(PathFresh(hv, w, e.bkey), "C15", "PathsUnique", e, "build_output")
+     /\ Ok(e) => CheckMatch(e.bkey = r.key, e, "BuildOutput:key")
+     /\ Ok(e) => MatchState(LastOf(r.steps), e, "BuildOutput")
+     /\ Step(HvBuilt(e))
+TMwixReq ==
+  /\ IsEv("mwix_req")
+  /\ LET e == E  w == e.w
+         r == MwixReq(st, w, [k |-> e.key, lock |-> e.lock]) IN
+     /\ Ok(e) => Check(PathFresh(hv, w, e.bkey), "C15", "PathsUnique", e, "mwix_req")
+     /\ CheckMatch((r.res = "ok") = Ok(e), e, "MwixReq:res:" \o r.res)
+     /\ MatchState(LastOr(r.steps, st), e, "MwixReq")
+     /\ Step(HvBuilt(e))
+
 \* ---- anything else: observe only ------------------------------------------
 Known == {"reset", "init_send", "lock", "receive", "finalize", "cancel", "post", "mine", "node_up", "node_down",
-          "refresh", "create_account", "set_active", "build_coinbase", "issue_invoice", "process_invoice", "crash", "trunc", "fork", "restore", "diverge", "scan", "reopen"}
+          "refresh", "create_account", "set_active", "build_coinbase", "issue_invoice", "process_invoice", "crash", "trunc", "fork", "restore", "diverge", "scan", "reopen", "build_output", "mwix_req"}
 TOther == /\ l <= Len(Rec) /\ Rec[l].ev \notin Known /\ ~Skipped
           /\ Step(hv)
 TSkipped == /\ Skipped
@@ -631,7 +653,7 @@ TSkipped == /\ Skipped
 TInit == /\ l = 1 /\ st = [w |-> <<>>, chain |-> <<>>, pool |-> {}, body |-> <<>>, reg |-> <<>>, nrep |-> <<>>]
          /\ hv = EmptyHist({}) /\ aux = [nodeUp |-> TRUE, dirty |-> {}, pre |-> <<>>, hvpre |-> EmptyHist({}), ope |-> <<>>, fresh |-> {}, mustRevert |-> {}]
 TNext == \/ TReset \/ TInitSend \/ TLock \/ TReceive \/ TFinalize \/ TCancel \/ TPost \/ TMine \/ TNode
-         \/ TRefresh \/ TAccount \/ TBuildCoinbase \/ TIssueInvoice \/ TProcessInvoice \/ TCrash \/ TTrunc \/ TFork \/ TRestore \/ TDiverge \/ TScan \/ TReopen \/ TOther \/ TSkipped
+         \/ TRefresh \/ TAccount \/ TBuildCoinbase \/ TIssueInvoice \/ TProcessInvoice \/ TCrash \/ TTrunc \/ TFork \/ TRestore \/ TDiverge \/ TScan \/ TReopen \/ TBuildOutput \/ TMwixReq \/ TOther \/ TSkipped
 TSpec == TInit /\ [][TNext]_tvars
 
 \* every line must have been consumed (the spec has no way to get stuck other
